@@ -120,7 +120,8 @@ theorem cmMid_no_sampled {lastN : Nat} {c : ReqContent} {hs : List VH} {l f g : 
   have h2 : hs.length - reorg = lastN := by omega
   simp only [h2]
   unfold cmTail
-  simp [hg, hgl, hf, addU64, hl, hns, hpos]
+  have hne : lastN ≠ 0 := by omega
+  simp [hg, hgl, hf, addU64, hl, hns, hpos, hne]
   rfl
 
 /-- **the shape check accepts an answer without sampled headers**: reorg headers `rs` (below the
